@@ -207,6 +207,19 @@ func (x *Exec) evalSpec(e ast.Expr, sc *SpecScope, st *State) *Value {
 		return x.specIndex(base, idx, st)
 	case *ast.CallExpr:
 		return x.specCall(e, sc, st)
+	case *ast.SliceExpr:
+		base := x.evalSpec(e.X, sc, st)
+		if base.Tm == nil || base.Tm.S != SliceS {
+			panic(engErr("slice expression on non-slice in contract"))
+		}
+		lo, hi := IntLit(0), SLen(base.Tm)
+		if e.Low != nil {
+			lo = x.specInt(x.evalSpec(e.Low, sc, st))
+		}
+		if e.High != nil {
+			hi = x.specInt(x.evalSpec(e.High, sc, st))
+		}
+		return &Value{T: base.T, Tm: MkSliceC(SArr(base.Tm), Add(SOff(base.Tm), lo), Sub(hi, lo), Sub(SCap(base.Tm), lo))}
 	}
 	panic(engErr("unsupported contract expression %T", e))
 }
@@ -688,6 +701,16 @@ func (x *Exec) specCall(e *ast.CallExpr, sc *SpecScope, st *State) *Value {
 		return &Value{T: bt, Tm: Lt(v.term(), st.allocTop())}
 	case "dyn":
 		return &Value{Tm: App("dtype", IntS, arg(0).term())}
+	case "implementsT":
+		v := arg(0)
+		s, _ := strconv.Unquote(e.Args[1].(*ast.BasicLit).Value)
+		id, ok := x.eng.typeIDs[s]
+		if !ok {
+			id = int64(len(x.eng.typeIDs) + 1)
+			x.eng.typeIDs[s] = id
+			x.eng.typeNames = append(x.eng.typeNames, s)
+		}
+		return &Value{T: bt, Tm: And(Not(Eq(v.term(), IntLit(0))), App("implements", BoolS, App("dtype", IntS, v.term()), IntLit(id)))}
 	case "hastype":
 		v := arg(0)
 		s, _ := strconv.Unquote(e.Args[1].(*ast.BasicLit).Value)
